@@ -407,7 +407,7 @@ func c12Run(c *engine.Ctx) {
 	}
 	if thorough {
 		// length 4 over the symbols that change the encoders' state (escapes, invalid bytes, multi-byte)
-		sub := c12Alphabet[:min(18, len(c12Alphabet))]
+		sub := c12Alphabet[:min(32, len(c12Alphabet))]
 		for _, a := range sub {
 			for _, b := range sub {
 				for _, d := range sub {
@@ -738,7 +738,7 @@ func init() {
 	engine.Register(&engine.Check{
 		ID:    "C12",
 		Level: "exploration",
-		Rule: "all strings of length <= 2 over a 48-piece byte alphabet (control bytes, quote, backslash, DEL, every UTF-8 lead/continuation class, surrogate encodings, U+2028/9, U+FFFD, boundary code points; all strings of length 3 over all of them, thorough also length 4 over 18 of them) as value, object key and nested; ~50 numbers (float64 bit-pattern classes and format thresholds, NaN/inf, json.Number literals, big integers); containers of every depth 0..100, 129, 200 (thorough every depth to 260, 500, 1000), width up to 1000 (9000), sizes around the 8 KiB flush threshold; " +
+		Rule: "all strings of length <= 2 over a 48-piece byte alphabet (control bytes, quote, backslash, DEL, every UTF-8 lead/continuation class, surrogate encodings, U+2028/9, U+FFFD, boundary code points; all strings of length 3 over all of them, thorough also length 4 over 32 of them) as value, object key and nested; ~50 numbers (float64 bit-pattern classes and format thresholds, NaN/inf, json.Number literals, big integers); containers of every depth 0..100, 129, 200 (thorough every depth to 260, 500, 1000), width up to 1000 (9000), sizes around the 8 KiB flush threshold; " +
 			"each rendered by Marshal, tojson, tostring, @json, @text and the command's encoder in every option combination (compact, indent 0..9, tab, each plain and coloured), read back with encoding/json and compared (modulo NaN->null, inf saturation, U+FFFD per invalid byte), all modes compared modulo insignificant white space and SGR sequences, indentation = depth x unit on every line; encoder/Marshal reuse histories; the same strings through the real command line and a YAML output/input round trip; every sequence of <= 3 input documents x 11 queries emitting 0..2 values per input written with --yaml-output and read back as a stream.",
 		Assume:         []string{"encoding/json is the reader; go-yaml is exercised but its own quoting decisions are trusted as long as the text reads back equal"},
 		Run:            c12Run,
